@@ -7,13 +7,14 @@ import (
 
 	"verif/harness/core"
 	"verif/harness/gen"
+	"verif/harness/script"
 )
 
 func TestMain(m *testing.M) {
 	core.Main(m, "C15", "cases = one server (generated handler table over all 15 column types, COPY, errors) and 2..8 client sessions of up to 12 simple/extended/COPY messages each, deliberately sharing statement and portal names and query texts, with different users; run (s1) free-running: one harness goroutine per connection, no cross-connection synchronisation, or (s2) under a generated message-level interleaving; oracle = every session's transcript and callback trace equal the same session run alone on a fresh identical server (differential), and the -race build reports no data race with a psql-wire frame; non-trivial = >= 2 sessions using prepared statements/portals with shared names; distinct = distinct canonical JSON")
 }
 
-var opts = gen.RichOpts{Copy: true, BigErrs: false, MaxMsgs: 12}
+var opts = gen.RichOpts{Copy: true, BigErrs: false, Helpers: true, MaxMsgs: 12}
 
 func genCase(t *rapid.T) Case {
 	c := Case{}
@@ -27,6 +28,22 @@ func genCase(t *rapid.T) Case {
 		m := gen.Rich(t, opts).Msgs
 		c.Sessions = append(c.Sessions, m)
 		total += len(m)
+	}
+	// a statement whose handler decodes array parameters (scan plans are memoised inside the type map the
+	// parameter was built with): used by several sessions so that the decode paths overlap
+	c.Cfg.Table.Q["scan arrays"] = script.Outcome{Stmts: []script.Stmt{{
+		Cols:   []script.Col{{Name: "n", T: "int4"}},
+		ScanAs: []string{"_int4", "_text", "int4"},
+		Ops:    []script.Op{{K: "row", Vals: []script.Val{{T: "int4", I: 1}}}, {K: "complete", Tag: "SELECT 1"}},
+	}}}
+	for i := range c.Sessions {
+		if rapid.Bool().Draw(t, "scans-arrays") {
+			a, b, n := []byte("{1,2,3}"), []byte("{x,y}"), []byte("5")
+			blk := []script.CMsg{{K: "P", Name: "arr", Query: "scan arrays"}, {K: "B", Portal: "arr", Name: "arr", Params: []*[]byte{&a, &b, &n}}, {K: "E", Portal: "arr"}, {K: "S"}}
+			at := rapid.IntRange(0, len(c.Sessions[i])).Draw(t, "scan-at")
+			c.Sessions[i] = append(c.Sessions[i][:at:at], append(blk, c.Sessions[i][at:]...)...)
+			total += len(blk)
+		}
 	}
 	if rapid.Bool().Draw(t, "owned-schedule") {
 		for len(c.Schedule) < total {
